@@ -262,6 +262,9 @@ def run(c, facts):
     sc = ['oal_client::lsp::unicode::utf8_to_position', 'oal_client::lsp::unicode::utf8_range_to_position', 'oal_client::lsp::unicode::position_to_utf8',
           'oal_client::lsp::handlers::node_location', 'oal_client::lsp::handlers::prepare_rename', 'oal_client::lsp::handlers::rename']
     _c16.run_units(c, facts, rule_prefix='C18.U', scope=sc, must=sc[:3], floors=False)
+    import c03 as _c03
+    R13 = c.rule('C18.R13', 'COMPONENT-NAME: renaming an @reference renames its component: the key a component is registered under and the name its $refs use are made by one function of the identifier (shared with C03.R1)')
+    c.shared(R13, _c03.r1_ref_close, 'C03.R1', facts)
     c.run(r6_prepare_target, facts)
     c.run(r11_qualifier_binders, facts)
     c.run(r4_qualifier_local, facts)
